@@ -3,8 +3,8 @@
 scopes) in-process under line+branch coverage of /repo/hexital and reports, per file, the statements that no
 correspondence scenario executed.  Those lines are code the model is NOT tied to (only the oracles may reach them).
 
-usage (from /verif):  PYTHONPATH=/repo:/verif TZ=UTC /venv/bin/python tools/tie_coverage.py [--n 150] [--out evidence/tie_coverage.json]
-A measurement aid: it decides no property.  Its report is committed as evidence/tie_coverage.json and summarised in DESIGN.md.
+usage (from /verif):  PYTHONPATH=/repo:/verif TZ=UTC /venv/bin/python tools/tie_coverage.py [--n 150] [--out reports/tie_coverage.json]
+A measurement aid: it decides no property.  Its report is committed as reports/tie_coverage.json and summarised in DESIGN.md.
 """
 import argparse
 import json
@@ -21,7 +21,7 @@ def main():
     ap = argparse.ArgumentParser()
     ap.add_argument("--n", type=int, default=150)
     ap.add_argument("--seed", type=int, default=1)
-    ap.add_argument("--out", default=os.path.join(ROOT, "evidence", "tie_coverage.json"))
+    ap.add_argument("--out", default=os.path.join(ROOT, "reports", "tie_coverage.json"))
     a = ap.parse_args()
     import importlib.util
 
